@@ -4,6 +4,11 @@ manifest is valid at every commit)."""
 import json, os, sys
 
 CHECKS = {
+ "C10": ("model_checking",
+         "enumeration of page-chain layouts x explicit-state search over request sequences on the real Collection, against the lazily generated true sequence",
+         "7 636 chains (quick; 2 kinds x 4 root-item variants x page vectors up to 3 pages of size 0..2 x 3 placements x 6+ tails incl. cycles and failing pages) / about 180 000 (thorough, 4 pages of size 0..3); per chain a breadth-first search over reference states (items delivered) with request sizes {0,1,2,3,4,7}, every transition replayed through the continuation protocol on a fresh Collection over the in-memory peer, plus unmerged request pairs. Delivered items are a prefix of the truth, at most one justified error item, no short or over-long answers, nothing lost at the end; non-terminating cases are caught by a worker watchdog.",
+         "Trusted: the truth walker in checks/c10; Env-B peer (lib/world, verifrt.Dial seam); the watchdog thresholds (50 000 goroutines or 60 s for one chain) only decide non-termination. Eagerness of look-ahead is deliberately not judged.",
+         "DESIGN.md §3 C10"),
  "C12": ("exploration",
          "bounded-exhaustive enumeration of link-bearing documents x attachment lists x hosts x widths; shown numbers parsed from the rendering and compared with SelectLink",
          "Every HTML forest with <=3 (quick) / <=4 (thorough) nodes over 14 labels in which each link-bearing element has a unique target and label, Markdown/gemtext/plaintext line sequences, posts, activities and actors, attachment lists up to 2/3 of 5 kinds, 8 widths from 1 to 80: numbers shown are exactly 1..N once each, the number next to a label opens that label's target, every target is reachable, and min-int,-1,0,N+1,N+2,max-int open nothing without panicking.",
